@@ -275,6 +275,17 @@ def case_line(c, impl=False):
     if impl:
         import zlib
         ops = [(o.replace(" ", "@t ", 1) if via_trait(o, i) else o) for i, o in enumerate(ops)]
+        # a quarter of the key-typed operations use a key made from a SECOND table instance with the same content (equal
+        # keys, other `Element` objects — what mixing `ChemicalElements::new()` with the global table gives)
+        KEYED = ("set ", "inc ", "iset ", "iadd ", "get ", "idx ", "set@t ", "inc@t ", "get@t ")
+
+        def second(o, i):
+            if o.startswith(KEYED) and zlib.crc32(f"2#{o}#{i}".encode()) % 4 == 0:
+                w = o.split(" ")
+                w[2] = w[2] + "~2"
+                return " ".join(w)
+            return o
+        ops = [second(o, i) for i, o in enumerate(ops)]
         # half of the clones go through `Clone::clone_from` into the live destination (the model has one clone)
         ops = [(o + " from" if o.startswith("clone ") and zlib.crc32(f"{o}#{i}".encode()) % 2 == 0 else o) for i, o in enumerate(ops)]
     return "comp\t%d\t%s" % (c["nregs"], ";".join(ops))
